@@ -147,6 +147,29 @@ func (g *Gen) step(fn *ssa.Function, st *State, in ssa.Instruction) {
 			g.safety(st, "nil", x.Pos(), fmt.Sprintf("(not (= %s 0))", p.T))
 			g.frameFieldStore(st, key, nil, x.Pos())
 			st.heap[key] = g.def("H", g.heapSort[key], fmt.Sprintf("(store %s %s %s)", g.heapGet(st, key), p.T, v.T))
+		case p.Kind == "opaque" && p.T != "" && v.Kind == "opaque" && v.T != "" && isStructType(x.Val.Type()):
+			// *dst = *src for heap structs (the loaded struct value carries the identity of src): every
+			// field array gets dst's entry from src's
+			stt := x.Val.Type().Underlying().(*types.Struct)
+			g.safety(st, "nil", x.Pos(), fmt.Sprintf("(not (= %s 0))", p.T))
+			pt := types.NewPointer(x.Val.Type())
+			for i := 0; i < stt.NumFields(); i++ {
+				key, ft := g.heapKey(pt, i)
+				keys := []string{key}
+				if _, isSl := ft.Underlying().(*types.Slice); isSl {
+					for _, sfx := range []string{"#off", "#len"} {
+						if _, ok := g.heapSort[key+sfx]; !ok {
+							g.heapSort[key+sfx] = "(Array Int Int)"
+						}
+						keys = append(keys, key+sfx)
+					}
+				}
+				for _, k := range keys {
+					g.frameFieldStore(st, k, nil, x.Pos())
+					cur := g.heapGet(st, k)
+					st.heap[k] = g.def("H", g.heapSort[k], fmt.Sprintf("(store %s %s (select %s %s))", cur, p.T, cur, v.T))
+				}
+			}
 		case p.Kind == "globptr":
 			st.globs[p.T] = v
 		case p.Kind == "unmodelledptr":
@@ -466,6 +489,9 @@ func (g *Gen) heapRead(st *State, key, obj string, t types.Type) Val {
 		off := fmt.Sprintf("(select %s %s)", g.heapGet(st, key+"#off"), obj)
 		ln := fmt.Sprintf("(select %s %s)", g.heapGet(st, key+"#len"), obj)
 		g.assume(st, fmt.Sprintf("(and (>= %s 0) (<= 0 %s) (<= %s %s) (<= 0 %s) (<= %s %s) (=> (= %s 0) (= %s 0)))", e, off, off, maxLen, ln, ln, maxLen, e, ln))
+		if strings.HasPrefix(g.heapGet(st, key), "|H0.") { // read from the untouched entry heap: an object that existed at entry
+			g.assume(st, fmt.Sprintf("(<= %s %s)", e, g.allocMark()))
+		}
 		known := false
 		for _, r := range st.refs {
 			if r == e {
